@@ -100,6 +100,20 @@ class P:
                 return
             self.i += 1
 
+    def skip_closure_type(self):
+        depth = 0
+        while True:
+            k, v = self.peek()
+            if k is None:
+                return
+            if v in ('<', '(', '['):
+                depth += 1
+            elif v in ('>', ')', ']'):
+                depth -= 1
+            elif depth == 0 and v in (',', '|'):
+                return
+            self.i += 1
+
     # --- blocks and statements
     def block(self):
         self.take('{')
@@ -121,6 +135,14 @@ class P:
                 e = self.expr()
                 self.take(';')
                 stmts.append(('let', pat, e))
+                continue
+            if self.at('for'):
+                self.take()
+                pat = self.pattern()
+                self.take('in')
+                it = self.expr(0, True)
+                body = self.block()
+                stmts.append(('for', pat, it, body))
                 continue
             if self.at('return'):
                 self.take()
@@ -190,6 +212,14 @@ class P:
 
     # --- expressions
     def expr(self, minprec=0, nostruct=False):
+        e = self.binexpr(minprec, nostruct)
+        if minprec == 0 and self.peek()[0] == 'p' and self.peek()[1] in ('..=', '..'):
+            incl = self.take()[1] == '..='
+            r = self.binexpr(0, nostruct)
+            return ('range', e, r, incl)
+        return e
+
+    def binexpr(self, minprec=0, nostruct=False):
         lhs = self.unary(nostruct)
         while True:
             k, v = self.peek()
@@ -203,7 +233,7 @@ class P:
                 if prec < minprec:
                     break
                 self.take()
-                rhs = self.expr(prec + 1, nostruct)
+                rhs = self.binexpr(prec + 1, nostruct)
                 lhs = ('bin', v, lhs, rhs)
                 continue
             break
@@ -321,10 +351,26 @@ class P:
                     arms.append((p, guard, body))
             self.take('}')
             return ('match', s, arms)
-        if v == '|' or v == '||' or (v == 'move' and k == 'id'):
-            raise Untranslatable('closure')
+        if v == 'move' and k == 'id' and self.peek(1)[1] in ('|', '||'):
+            self.take()
+            k, v = self.peek()
+        if v == '||' and k == 'p':
+            self.take()
+            return ('closure', [], self.expr())
+        if v == '|' and k == 'p':
+            self.take()
+            params = []
+            while not self.at('|'):
+                params.append(self.pattern())
+                if self.at(':'):
+                    self.take()
+                    self.skip_closure_type()
+                if self.at(','):
+                    self.take()
+            self.take('|')
+            return ('closure', params, self.expr())
         if v in ('for', 'while', 'loop') and k == 'id':
-            raise Untranslatable('loop')
+            raise Untranslatable('loop in expression position')
         if k == 'id':
             path = [self.take()[1]]
             while self.at('::'):
@@ -336,8 +382,10 @@ class P:
                     continue
                 path.append(self.take()[1])
             if self.at('!'):
-                # macro invocation: skip its delimited body
+                # macro invocation: `iproduct!(a, b)` keeps its arguments, any other body is skipped
                 self.take()
+                if path[-1] == 'iproduct' and self.at('('):
+                    return ('iproduct', self.args())
                 k3, v3 = self.peek()
                 close = {'(': ')', '[': ']', '{': '}'}[v3]
                 depth = 0
@@ -380,6 +428,22 @@ def lit(text):
 
 
 LOGGING = {'debug', 'trace', 'info', 'warn', 'error'}
+
+T_MAT = ('st', 'Transform2')
+T_P = ('P',)           # the model's `Pt` structure (what nalgebra `Point2` is in Mat3.position / setPosition)
+
+
+def comp2(t, ty, i):
+    if ty == T_P:
+        return '%s.%s' % (t, 'x' if i == 1 else 'y')
+    return comp(t, i)
+
+
+def as_P(t, ty):
+    """a point-like term as the model's `Pt`"""
+    if ty == T_P:
+        return t
+    return '(mkPt %s)' % t
 
 
 def comp(t, i):
@@ -439,6 +503,8 @@ class Emitter:
                 return self.ex(a)
             t, ty = self.ex(a)
             if op == '-':
+                if ty == 'i':
+                    return '(-%s)' % t, 'i'
                 if ty == ('vec',):
                     return ('((-%s), (-%s))' % (comp(t, 1), comp(t, 2))), ty
                 return '(-%s)' % t, ty
@@ -479,7 +545,41 @@ class Emitter:
             return self.match(e[1], e[2])
         if k == 'block':
             return self.blk(e)
+        if k == 'iproduct':
+            parts = [self.ex(a) for a in e[1]]
+            if len(parts) != 2 or not all(isinstance(t, tuple) and t[0] == 'list' for _, t in parts):
+                raise Untranslatable('iproduct! of other than two sequences')
+            return '', ('iprod', [(p[0], p[1][1]) for p in parts])
+        if k == 'range':
+            lo, hi, incl = e[1], e[2], e[3]
+            if incl and lo[0] == 'un' and lo[1] == '-' and lo[2] == hi:
+                t, ty = self.ex(hi)
+                if ty == 'i':
+                    return '(shellRange %s)' % t, ('list', 'i')
+            raise Untranslatable('range other than -k..=k over i64')
+        if k == 'closure':
+            raise Untranslatable('closure outside an iterator adaptor')
         raise Untranslatable('expression kind ' + k)
+
+    def lam(self, clo, tys):
+        """a closure applied to arguments of the given types: (lean binder texts, body term, body type)"""
+        if clo[0] == 'path' and len(tys) == 1 and isinstance(tys[0], tuple) and tys[0][0] == 'st':
+            key = (tys[0][1], clo[1][-1])
+            if key in self.methods:
+                fn, rty = self.methods[key][:2]
+                body = fn('fx', []) if callable(fn) else '(%s fx)' % fn
+                return ['fx'], body, rty
+        if clo[0] != 'closure' or len(clo[1]) != len(tys):
+            raise Untranslatable('expected a closure of %d argument(s)' % len(tys))
+        sub = Emitter(self.env, self.structs, self.methods, self.consts, self.selfty)
+        binders = []
+        for pat, ty in zip(clo[1], tys):
+            ptxt, binds = self.bind(pat, None, ty)
+            binders.append(ptxt)
+            for n, t, tty in binds:
+                sub.env[n] = (t, tty)
+        bt, bty = sub.ex(clo[2])
+        return binders, bt, bty
 
     def path(self, p):
         name = '::'.join(p)
@@ -499,6 +599,8 @@ class Emitter:
 
     def field(self, base, name):
         t, ty = self.ex(base)
+        if ty == T_P and name in ('x', 'y'):
+            return '%s.%s' % (t, name), 'f'
         if ty == ('pt',) or ty == ('vec',):
             if name == 'x':
                 return comp(t, 1), 'f'
@@ -520,12 +622,91 @@ class Emitter:
     def mcall(self, recv, name, args):
         # struct methods first
         t, ty = self.ex(recv)
+        if isinstance(ty, tuple) and ty[0] == 'list':
+            el = ty[1]
+            if name in ('iter', 'into_iter', 'collect', 'copied', 'cloned') and not args:
+                return t, ty
+            if name == 'len' and not args:
+                return '(%s).length' % t, 'n'
+            if name in ('map', 'flat_map') and len(args) == 1:
+                b, body, bty = self.lam(args[0], [el])
+                if name == 'map':
+                    return '(%s.map fun %s => %s)' % (t, b[0], body), ('list', bty)
+                if not (isinstance(bty, tuple) and bty[0] == 'list'):
+                    raise Untranslatable('flat_map: the function does not return a sequence')
+                return '(%s.flatMap fun %s => %s)' % (t, b[0], body), bty
+            if name == 'filter' and len(args) == 1:
+                b, body, bty = self.lam(args[0], [el])
+                if bty != 'b':
+                    raise Untranslatable('filter: closure is not boolean')
+                return '(%s.filter fun %s => %s)' % (t, b[0], body), ty
+            if name == 'enumerate' and not args:
+                return '(%s.zipIdx.map fun zp => (zp.2, zp.1))' % t, ('list', ('tup', ['n', el]))
+            if name == 'skip' and len(args) == 1:
+                return '(%s.drop %s)' % (t, self.nat(args[0])), ty
+            if name == 'any' and len(args) == 1:
+                b, body, bty = self.lam(args[0], [el])
+                sub = body if bty == 'b' else None
+                if sub is None:
+                    raise Untranslatable('any: closure is not boolean')
+                return '(%s.any fun %s => %s)' % (t, b[0], body), 'b'
+            if name == 'sum' and not args and el == 'f':
+                return '(fsum %s)' % t, 'f'
+            if name == 'tuple_combinations' and not args:
+                return '(pairs %s)' % t, ('list', ('tup', [el, el]))
+            if name == 'fold' and len(args) == 2 and args[0][0] == 'num' and re.fullmatch(r'\d+', args[0][1]):
+                b, body, bty = self.lam(args[1], ['n', el])
+                return '(%s.foldl (fun %s %s => %s) %s)' % (t, b[0], b[1], body, args[0][1]), 'n'
+            if name == 'fold' and len(args) == 2:
+                init, ity = self.ex(args[0])
+                if args[1][0] == 'path' and '::'.join(args[1][1]) in ('f64::max', 'std::f64::max') and \
+                        args[0][0] == 'path' and '::'.join(args[0][1]) in ('std::f64::MIN', 'f64::MIN') and el == 'f':
+                    return '(foldMax %s)' % t, 'f'
+                b, body, bty = self.lam(args[1], [ity, el])
+                return '(%s.foldl (fun %s %s => %s) %s)' % (t, b[0], b[1], body, init), ity
+            raise Untranslatable('sequence method .%s' % name)
+        if isinstance(ty, tuple) and ty[0] == 'iprod':
+            (ta, ea), (tb, eb) = ty[1]
+            if name == 'filter' and len(args) == 1:
+                b, body, bty = self.lam(args[0], [('tup', [ea, eb])])
+                if bty != 'b':
+                    raise Untranslatable('filter: closure is not boolean')
+                return '((%s.flatMap fun ip_a => %s.map fun ip_b => (ip_a, ip_b)).filter fun %s => %s)' % (ta, tb, b[0], body), ('list', ('tup', [ea, eb]))
+            if name == 'map' and len(args) == 1:
+                b, body, bty = self.lam(args[0], [('tup', [ea, eb])])
+                return '(%s.flatMap fun ip_a => %s.map fun ip_b => (fun %s => %s) (ip_a, ip_b))' % (ta, tb, b[0], body), ('list', bty)
+            if name == 'any' and len(args) == 1:
+                b, body, bty = self.lam(args[0], [('tup', [ea, eb])])
+                if bty != 'b':
+                    raise Untranslatable('any: closure is not boolean')
+                return '(%s.any fun ip_a => %s.any fun ip_b => (fun %s => %s) (ip_a, ip_b))' % (ta, tb, b[0], body), 'b'
+            if name == 'fold' and len(args) == 2:
+                init, ity = self.ex(args[0])
+                b, body, bty = self.lam(args[1], [ity, ('tup', [ea, eb])])
+                return '((%s.flatMap fun ip_a => %s.map fun ip_b => (ip_a, ip_b)).foldl (fun %s %s => %s) %s)' % (ta, tb, b[0], b[1], body, init), ity
+            raise Untranslatable('iproduct method .%s' % name)
         if isinstance(ty, tuple) and ty[0] == 'st' and (ty[1], name) in self.methods:
-            fn, rty = self.methods[(ty[1], name)]
-            ats = [self.ex(a)[0] for a in args]
+            ent = self.methods[(ty[1], name)]
+            fn, rty = ent[0], ent[1]
+            ats = []
+            for i, a in enumerate(args):
+                at, aty = self.ex(a)
+                if len(ent) > 2 and i < len(ent[2]) and ent[2][i] == T_P:
+                    at = as_P(at, aty)
+                if len(ent) > 2 and i < len(ent[2]) and ent[2][i] in ('i', 'n') and a[0] == 'num':
+                    at = self.nat(a)
+                ats.append(at)
             if callable(fn):
                 return fn(t, ats), rty
             return '(%s %s)' % (fn, ' '.join([t] + ats)), rty
+        if ty == T_MAT:
+            if name == 'position' and not args:
+                return '(Mat3.position %s)' % t, T_P
+            if name == 'set_position' and len(args) == 1:
+                a, aty = self.ex(args[0])
+                return '(Mat3.setPosition %s %s)' % (t, as_P(a, aty)), T_MAT
+            if name == 'periodic' and len(args) == 2:
+                return '(Mat3.periodic %s %s %s)' % (t, self.ex(args[0])[0], self.ex(args[1])[0]), T_MAT
         if ty == 'f':
             if name in self.F1 and not args:
                 return '(%s %s)' % (self.F1[name], t), 'f'
@@ -574,14 +755,20 @@ class Emitter:
             return '(dist %s %s %s %s)' % (comp(a, 1), comp(a, 2), comp(b, 1), comp(b, 2)), 'f'
         if name in ('Point2::origin', 'nalgebra::Point2::origin') and not args:
             return '(((0 : Nat) : α), ((0 : Nat) : α))', ('pt',)
+        if name == 'Transform2::new' and len(args) == 2:
+            rot, _ = self.ex(args[0])
+            tr, tty = self.ex(args[1])
+            return '(Mat3.new %s %s %s)' % (rot, comp(tr, 1), comp(tr, 2)), T_MAT
+        if name in ('Translation2::new', 'nalgebra::Translation2::new') and len(args) == 2:
+            return '(%s, %s)' % (self.ex(args[0])[0], self.ex(args[1])[0]), ('transl',)
         if name in ('Point2::new', 'Vector2::new') and len(args) == 2:
             return '(%s, %s)' % (self.ex(args[0])[0], self.ex(args[1])[0]), ('pt',) if name.startswith('Point') else ('vec',)
         key = ('Self', f[1][-1]) if f[1][0] == 'Self' else ('', name)
         if f[1][0] == 'Self' and self.selfty is not None and (self.selfty, f[1][-1]) in self.methods:
-            fn, rty = self.methods[(self.selfty, f[1][-1])]
+            fn, rty = self.methods[(self.selfty, f[1][-1])][:2]
             return '(%s %s)' % (fn, ' '.join(self.ex(a)[0] for a in args)), rty
         if key in self.methods:
-            fn, rty = self.methods[key]
+            fn, rty = self.methods[key][:2]
             return '(%s %s)' % (fn, ' '.join(self.ex(a)[0] for a in args)), rty
         raise Untranslatable('call of ' + name)
 
@@ -608,6 +795,20 @@ class Emitter:
             if op in '+*/%':
                 return '(%s %s %s)' % (a, op, b), 'n'
             raise Untranslatable('unsigned ' + op)
+        if ta == T_MAT and tb == T_MAT and op == '*':
+            return '(Mat3.mul %s %s)' % (a, b), T_MAT
+        if ta == T_MAT and tb in (T_P, ('pt',)) and op == '*':
+            return '(Mat3.apply %s %s)' % (a, as_P(b, tb)), T_P
+        if ta == ('transl',) and tb in (T_P, ('pt',)) and op == '*':
+            # nalgebra `Translation * Point` = point + vector
+            return '((%s + %s), (%s + %s))' % (comp2(b, tb, 1), comp(a, 1), comp2(b, tb, 2), comp(a, 2)), ('pt',)
+        if ta == 'i' and tb == 'i' and op in '+-*':
+            return '(%s %s %s)' % (a, op, b), 'i'
+        if ta == 'i' and r[0] == 'num' and op in '+-*':
+            return '(%s %s %s)' % (a, op, self.nat(r)), 'i'
+        if T_P in (ta, tb) and ta in (('pt',), ('vec',), T_P) and tb in (('pt',), ('vec',), T_P) and op in '+-':
+            rt = ('vec',) if op == '-' else ('pt',)
+            return '((%s %s %s), (%s %s %s))' % (comp2(a, ta, 1), op, comp2(b, tb, 1), comp2(a, ta, 2), op, comp2(b, tb, 2)), rt
         if ta in (('pt',), ('vec',)) and tb in (('pt',), ('vec',)) and op in '+-':
             rt = ('vec',) if (op == '-' and ta == ('pt',) and tb == ('pt',)) else (('pt',) if ('pt',) in (ta, tb) else ('vec',))
             return '((%s %s %s), (%s %s %s))' % (comp(a, 1), op, comp(b, 1), comp(a, 2), op, comp(b, 2)), rt
@@ -641,11 +842,13 @@ class Emitter:
             if op in ('==', '!='):
                 a, ta = self.ex(l)
                 b, tb = self.ex(r)
-                if ta == 'n' or tb == 'n':
+                if ta in ('n', 'i') or tb in ('n', 'i'):
                     if r[0] == 'num':
                         b = self.nat(r)
                     if l[0] == 'num':
                         a = self.nat(l)
+                    return '(%s %s %s)' % (a, '=' if op == '==' else '≠', b)
+                if ta == 'b' and tb == 'b':
                     return '(%s %s %s)' % (a, '=' if op == '==' else '≠', b)
                 return '((%s == %s) = %s)' % (a, b, 'true' if op == '==' else 'false')
         if e[0] == 'un' and e[1] == '!':
@@ -801,6 +1004,136 @@ class Emitter:
         assert b[0] == 'block'
         return self.stmts(list(b[1]), b[2])
 
+    # ---- `for` loops: two shapes are translated
+    #   * search loop: the only effect of the (possibly nested) body is `return <constant>`
+    #       for p in it { … if c { return K; } … }  rest      ==>   if it.any (fun p => …) then K else rest
+    #   * accumulation loop: the only effect is `acc += e` on ONE local `let mut acc`
+    #       for p in it { … acc += e; … }  rest               ==>   let acc := it.foldl (fun acc p => …) acc; rest
+    @staticmethod
+    def body_stmts(b):
+        """statements of a loop / branch body; a trailing `if` without `else` is a statement"""
+        st = list(b[1])
+        if b[2] is not None:
+            if b[2][0] == 'if' and b[2][3] is None:
+                st.append(('expr', b[2]))
+            else:
+                raise Untranslatable('loop body with a value')
+        return st
+
+    def loop_effects(self, b, rets, assigns):
+        for st in self.body_stmts(b):
+            if st[0] == 'return':
+                rets.append(st[1])
+            elif st[0] == 'assign':
+                assigns.append(st)
+            elif st[0] == 'for':
+                self.loop_effects(st[3], rets, assigns)
+            elif st[0] == 'expr' and st[1][0] == 'if':
+                self.loop_effects(st[1][2], rets, assigns)
+                if st[1][3] is not None:
+                    raise Untranslatable('else branch inside a loop')
+            elif st[0] == 'let':
+                pass
+            elif st[0] == 'expr' and st[1][0] == 'macro' and st[1][1] in LOGGING:
+                pass
+            else:
+                raise Untranslatable('statement %r inside a loop' % (st[0] if st[0] != 'expr' else st[1][0],))
+
+    def sub(self):
+        e = Emitter(self.env, self.structs, self.methods, self.consts, self.selfty)
+        e.fresh = self.fresh
+        return e
+
+    def loop_binder(self, pat, it):
+        t, ty = self.ex(it)
+        if not (isinstance(ty, tuple) and ty[0] == 'list'):
+            raise Untranslatable('for loop over %r' % (ty,))
+        sub = self.sub()
+        ptxt, binds = self.bind(pat, None, ty[1])
+        for n, tt, tty in binds:
+            sub.env[n] = (tt, tty)
+        return t, ptxt, sub
+
+    def any_body(self, st):
+        """Bool term: does executing these statements reach a `return`?"""
+        if not st:
+            return 'false'
+        s, rest = st[0], st[1:]
+        if s[0] == 'return':
+            return 'true'
+        if s[0] == 'expr' and s[1][0] == 'macro':
+            return self.any_body(rest)
+        if s[0] == 'let':
+            t, ty = self.ex(s[2])
+            ptxt, binds = self.bind(s[1], t, ty)
+            sub = self.sub()
+            for n, tt, tty in binds:
+                sub.env[n] = (tt, tty)
+            return '(let %s := %s; %s)' % (ptxt, t, sub.any_body(rest))
+        if s[0] == 'for':
+            t, ptxt, sub = self.loop_binder(s[1], s[2])
+            here = '(%s.any fun %s => %s)' % (t, ptxt, sub.any_body(self.body_stmts(s[3])))
+        elif s[0] == 'expr' and s[1][0] == 'if':
+            here = '(if %s then %s else false)' % (self.as_prop(s[1][1]), self.any_body(self.body_stmts(s[1][2])))
+        else:
+            raise Untranslatable('statement inside a search loop')
+        r = self.any_body(rest)
+        return here if r == 'false' else '(%s || %s)' % (here, r)
+
+    def acc_body(self, st, acc):
+        """term for the value of the accumulator after executing these statements"""
+        if not st:
+            return acc
+        s, rest = st[0], st[1:]
+        if s[0] == 'expr' and s[1][0] == 'macro':
+            return self.acc_body(rest, acc)
+        if s[0] == 'let':
+            t, ty = self.ex(s[2])
+            ptxt, binds = self.bind(s[1], t, ty)
+            sub = self.sub()
+            for n, tt, tty in binds:
+                sub.env[n] = (tt, tty)
+            return '(let %s := %s; %s)' % (ptxt, t, sub.acc_body(rest, acc))
+        if s[0] == 'for':
+            t, ptxt, sub = self.loop_binder(s[1], s[2])
+            return '(let %s := (%s.foldl (fun %s %s => %s) %s); %s)' % (
+                acc, t, acc, ptxt, sub.acc_body(self.body_stmts(s[3]), acc), acc, self.acc_body(rest, acc))
+        if s[0] == 'assign' and s[1] == ('path', [acc]) and s[2] in ('+=', '-=', '*='):
+            v, vty = self.ex(s[3])
+            return '(let %s := (%s %s %s); %s)' % (acc, acc, s[2][0], v, self.acc_body(rest, acc))
+        if s[0] == 'expr' and s[1][0] == 'if':
+            inner = self.acc_body(self.body_stmts(s[1][2]), acc)
+            return '(let %s := (if %s then %s else %s); %s)' % (acc, self.as_prop(s[1][1]), inner, acc, self.acc_body(rest, acc))
+        raise Untranslatable('statement inside an accumulation loop')
+
+    def for_loop(self, s, rest, tail):
+        rets, assigns = [], []
+        self.loop_effects(s[3], rets, assigns)
+        if rets and not assigns:
+            if any(r != rets[0] for r in rets) or rets[0] is None or rets[0][0] not in ('path', 'num'):
+                raise Untranslatable('search loop returning different / non-constant values')
+            k, kty = self.ex(rets[0])
+            found = self.any_body([s])
+            r, rty = self.stmts(rest, tail)
+            return '(if (%s = true) then %s else %s)' % (found, k, r), rty
+        if assigns and not rets:
+            names = set()
+            for a in assigns:
+                if a[1][0] != 'path' or len(a[1][1]) != 1:
+                    raise Untranslatable('assignment to other than a local in a loop')
+                names.add(a[1][1][0])
+            if len(names) != 1:
+                raise Untranslatable('loop updating more than one local')
+            acc = names.pop()
+            if acc not in self.env or self.env[acc][1] != 'f':
+                raise Untranslatable('loop accumulator is not a local f64')
+            body = self.acc_body([s], acc)
+            # `body` ends in the accumulator's name: continue with the rest of the function under that binding
+            assert body.endswith('; %s)' % acc)
+            r, rty = self.stmts(rest, tail)
+            return body[:-len('%s)' % acc)] + r + ')', rty
+        raise Untranslatable('loop that both returns and accumulates (or does neither)')
+
     def returns(self, b):
         """does this block always end in `return`?"""
         if b is None:
@@ -843,6 +1176,8 @@ class Emitter:
                 sub.env[v] = (v, ty)
                 r, rty = sub.stmts(rest, tail)
                 return '(let %s := %s; %s)' % (v, new, r), rty
+        if s[0] == 'for':
+            return self.for_loop(s, rest, tail)
         if s[0] == 'expr' and s[1][0] == 'if' and s[1][3] is None and self.returns(s[1][2]):
             c = self.as_prop(s[1][1])
             a, ta = self.blk(s[1][2])
@@ -899,7 +1234,16 @@ ST_HANDLE = {'min': ('{s}.min', 'f'), 'max': ('{s}.max', 'f'), 'old': ('{s}.old'
 ST_BUILDER = {'steps': ('{s}.steps', 'n'), 'inner_steps': ('{s}.inner', 'n'), 'kt_start': ('{s}.ktStart', 'f'),
               'kt_finish': ('{s}.ktFinish', ('opt', 'f')), 'kt_ratio': ('{s}.ktRatio', ('opt', 'f')),
               'max_step_size': ('{s}.maxStep', 'f')}
-STRUCTS = {'Atom2': ST_ATOM, 'LJ2': ST_LJ, 'Line2': ST_LINE, 'Cell': ST_CELL, 'Handle': ST_HANDLE, 'Builder': ST_BUILDER}
+L_LINE = ('list', ('st', 'Line2'))
+L_ATOM = ('list', ('st', 'Atom2'))
+L_LJ = ('list', ('st', 'LJ2'))
+L_MAT = ('list', ('st', 'Transform2'))
+ST_SITE = {'x': ('{s}.x', 'f'), 'y': ('{s}.y', 'f'), 'angle': ('{s}.angle', 'f'), 'wyckoff': ('{s}', ('st', 'Wyckoff'))}
+ST_STATE = {'cell': ('{s}.cell', ('st', 'Cell')), 'shape': ('{s}.shape', ('st', 'Shape')),
+            'occupied_sites': ('{s}.sites', ('list', ('st', 'Site')))}
+STRUCTS = {'Site': ST_SITE, 'Wyckoff': {'symmetries': ('{s}.ops', L_MAT)}, 'State': ST_STATE,
+           'LineShape': {'items': ('{s}', L_LINE)}, 'MolShape': {'items': ('{s}', L_ATOM)}, 'LJShape': {'items': ('{s}', L_LJ)},
+           'Atom2': ST_ATOM, 'LJ2': ST_LJ, 'Line2': ST_LINE, 'Cell': ST_CELL, 'Handle': ST_HANDLE, 'Builder': ST_BUILDER}
 
 
 class Group:
@@ -981,6 +1325,41 @@ def gen_fns(repo):
           selfty='Line2', methods=lm, consts=consts)
     out[g.fname] = g.text('fnsLine')
 
+    # ---------------- shapes as lists of components (C12, C01, C02)
+    g = Group('FnsLineShape.lean', ['Model.Shapes', 'Generated.FnsLine'], 'src/shape/line_shape.rs')
+    ls = read(repo, 'src/shape/line_shape.rs')
+    ls_int = impl_block(ls, r'impl\s+Intersect\s+for\s+LineShape\s*\{')
+    ls_shape = impl_block(ls, r'impl\s+Shape\s+for\s+LineShape\s*\{')
+    ident = lambda r, a: r
+    lsm = {('LineShape', 'iter'): (ident, L_LINE), ('LineShape', 'into_iter'): (ident, L_LINE),
+           ('Line2', 'intersects'): ('line2_intersects', 'b')}
+    lsenv = {'self': ('self', ('st', 'LineShape')), 'other': ('other', ('st', 'LineShape'))}
+    g.add('lineshape_intersects', '(self other : List (Line2 α))', 'Bool', 'src/shape/line_shape.rs', 'intersects', ls_int, lsenv, methods=lsm)
+    g.add('lineshape_area', '(self : List (Line2 α))', 'α', 'src/shape/line_shape.rs', 'area', ls_int, lsenv, methods=lsm)
+    g.add('lineshape_enclosing_radius', '(self : List (Line2 α))', 'α', 'src/shape/line_shape.rs', 'enclosing_radius', ls_shape, lsenv, methods=lsm)
+    out[g.fname] = g.text('fnsLineShape')
+
+    g = Group('FnsMolShape.lean', ['Model.Shapes', 'Generated.FnsDisc'], 'src/shape/molecular_shape2.rs')
+    ms_int = impl_block(mol, r'impl\s+Intersect\s+for\s+MolecularShape2\s*\{')
+    ms_shape = impl_block(mol, r'impl\s+Shape\s+for\s+MolecularShape2\s*\{')
+    msm = {('MolShape', 'iter'): (ident, L_ATOM), ('MolShape', 'into_iter'): (ident, L_ATOM),
+           ('Atom2', 'intersects'): ('atom2_intersects', 'b'), ('MolShape', 'circle_overlap'): ('circle_overlap', 'f')}
+    msenv = {'self': ('self', ('st', 'MolShape')), 'other': ('other', ('st', 'MolShape'))}
+    g.add('molshape_intersects', '(self other : List (Atom2 α))', 'Bool', 'src/shape/molecular_shape2.rs', 'intersects', ms_int, msenv, methods=msm)
+    g.add('molshape_area', '(self : List (Atom2 α))', 'α', 'src/shape/molecular_shape2.rs', 'area', ms_int, msenv, selfty='MolShape', methods=msm)
+    g.add('molshape_enclosing_radius', '(self : List (Atom2 α))', 'α', 'src/shape/molecular_shape2.rs', 'enclosing_radius', ms_shape, msenv, methods=msm)
+    out[g.fname] = g.text('fnsMolShape')
+
+    g = Group('FnsLJShape.lean', ['Model.Shapes', 'Generated.FnsLJ'], 'src/shape/lj_shape.rs')
+    ljs = read(repo, 'src/shape/lj_shape.rs')
+    lj_pot = impl_block(ljs, r'impl\s+Potential\s+for\s+LJShape2\s*\{')
+    lj_shape = impl_block(ljs, r'impl\s+Shape\s+for\s+LJShape2\s*\{')
+    ljm = {('LJShape', 'iter'): (ident, L_LJ), ('LJShape', 'into_iter'): (ident, L_LJ), ('LJ2', 'energy'): ('lj2_energy', 'f')}
+    ljenv = {'self': ('self', ('st', 'LJShape')), 'other': ('other', ('st', 'LJShape'))}
+    g.add('ljshape_energy', '(self other : List (LJ2 α))', 'α', 'src/shape/lj_shape.rs', 'energy', lj_pot, ljenv, methods=ljm)
+    g.add('ljshape_enclosing_radius', '(self : List (LJ2 α))', 'α', 'src/shape/lj_shape.rs', 'enclosing_radius', lj_shape, ljenv, methods=ljm)
+    out[g.fname] = g.text('fnsLJShape')
+
     # ---------------- lj2 (C13, C03)
     g = Group('FnsLJ.lean', ['Model.Shapes'], 'src/shape/components/lj2.rs')
     lj = read(repo, 'src/shape/components/lj2.rs')
@@ -1010,6 +1389,79 @@ def gen_fns(repo):
           {'period': ('period', 'f'), 'offset': ('offset', 'f'), 'self': ('self', ('st', 'Transform2'))},
           methods={('Transform2', 'position'): (lambda r, a: 'position', ('pt',)), ('Transform2', 'set_position'): (lambda r, a: a[0], ('pt',))})
     out[g.fname] = g.text('fnsWrap')
+
+    # ---------------- lattice images and symmetry copies (C14, C15, C04)
+    MKPT = '/-- a pair as the model\'s point structure -/\ndef mkPt (p : α × α) : Pt α := ⟨p.1, p.2⟩\n'
+    g = Group('FnsLattice.lean', ['Model.Cell', 'Generated.FnsCell'], 'src/cell.rs (images)')
+    g.defs.append(MKPT)
+    cm2 = dict(cm)
+    cm2[('Cell', 'to_cartesian')] = ('cell_to_cartesian', ('tup', ['f', 'f']))
+    cm2[('Cell', 'area')] = ('cell_area', 'f')
+    g.add('cell_to_cartesian_point', '(self : Cell α) (point : Pt α)', 'α × α', 'src/cell.rs', 'to_cartesian_point', c_impl,
+          dict(cenv, point=('point', T_P)), methods=cm2)
+    cm2[('Cell', 'to_cartesian_point')] = ('cell_to_cartesian_point', ('pt',), [T_P])
+    tenv = dict(cenv, transform=('transform', T_MAT))
+    g.add('cell_to_cartesian_isometry', '(self : Cell α) (transform : Mat3 α)', 'Mat3 α', 'src/cell.rs', 'to_cartesian_isometry', c_impl,
+          tenv, methods=cm2)
+    g.add('cell_to_cartesian_translate', '(self : Cell α) (transform : Mat3 α) (x y : Int)', 'Mat3 α', 'src/cell.rs',
+          'to_cartesian_translate', c_impl, dict(tenv, x=('x', 'i'), y=('y', 'i')), methods=cm2)
+    cm2[('Cell', 'to_cartesian_translate')] = ('cell_to_cartesian_translate', T_MAT)
+    cm2[('Cell', 'to_cartesian_isometry')] = ('cell_to_cartesian_isometry', T_MAT)
+    g.add('cell_periodic_images', '(self : Cell α) (transform : Mat3 α) (shells : Int) (zero : Bool)', 'List (Mat3 α)', 'src/cell.rs',
+          'periodic_images', c_impl, dict(tenv, shells=('shells', 'i'), zero=('zero', 'b')), methods=cm2)
+    cm2[('Cell', 'periodic_images')] = ('cell_periodic_images', L_MAT, [T_MAT, 'i', 'b'])
+    out[g.fname] = g.text('fnsLattice')
+
+    g = Group('FnsSite.lean', ['Model.Site'], 'src/site.rs')
+    site = read(repo, 'src/site.rs')
+    s_impl = impl_block(site, r'impl\s+OccupiedSite\s*\{')
+    senv = {'self': ('self', ('st', 'Site'))}
+    sm = {}
+    g.add('site_transform', '(self : Site α)', 'Mat3 α', 'src/site.rs', 'transform', s_impl, senv)
+    sm[('Site', 'transform')] = ('site_transform', T_MAT)
+    g.add('site_symmetries', '(self : Site α)', 'List (Mat3 α)', 'src/site.rs', 'symmetries', s_impl, senv)
+    sm[('Site', 'symmetries')] = ('site_symmetries', L_MAT)
+    g.add('site_positions', '(self : Site α)', 'List (Mat3 α)', 'src/site.rs', 'positions', s_impl, senv, methods=sm)
+    g.add('site_multiplicity', '(self : Site α)', 'Nat', 'src/site.rs', 'multiplicity', s_impl, senv, methods=sm)
+    sm[('Site', 'positions')] = ('site_positions', L_MAT)
+    sm[('Site', 'multiplicity')] = ('site_multiplicity', 'n')
+    out[g.fname] = g.text('fnsSite')
+
+    # ---------------- states: overlap check and the two scores (C01, C02, C03)
+    shape_m = {('Shape', 'transform'): ('Shape.transform', ('st', 'Shape')), ('Shape', 'intersects'): ('Shape.intersects', 'b'),
+               ('Shape', 'energy'): ('Shape.energy', 'f'), ('Shape', 'enclosing_radius'): ('Shape.enclosingRadius', 'f'),
+               ('Shape', 'area'): ('Shape.area', 'f')}
+    stenv = {'self': ('self', ('st', 'State'))}
+
+    def state_group(fname, tag, rel, ty, extra):
+        g = Group(fname, ['Model.State', 'Generated.FnsLattice', 'Generated.FnsSite'], rel)
+        src = read(repo, rel)
+        inherent = impl_block(src, r'impl<S>\s+' + ty + r'<S>\s*where[^{]*\{')
+        st_impl = impl_block(src, r'impl<S>\s+State\s+for\s+' + ty + r'<S>\s*where[^{]*\{')
+        m = dict(shape_m)
+        m.update(cm2)
+        m.update(sm)
+        pre = tag + '_'
+        g.add(pre + 'total_shapes', '(self : Crystal α)', 'Nat', rel, 'total_shapes', st_impl, stenv, methods=m)
+        m[('State', 'total_shapes')] = (pre + 'total_shapes', 'n')
+        g.add(pre + 'relative_positions', '(self : Crystal α)', 'List (Mat3 α)', rel, 'relative_positions', inherent, stenv, methods=m)
+        m[('State', 'relative_positions')] = (pre + 'relative_positions', L_MAT)
+        g.add(pre + 'cartesian_positions', '(self : Crystal α)', 'List (Mat3 α)', rel, 'cartesian_positions', inherent, stenv, methods=m)
+        m[('State', 'cartesian_positions')] = (pre + 'cartesian_positions', L_MAT)
+        extra(g, m, inherent, st_impl, pre)
+        return g
+
+    def packed_extra(g, m, inherent, st_impl, pre):
+        g.add(pre + 'check_intersection', '(self : Crystal α)', 'Bool', 'src/state/packed.rs', 'check_intersection', inherent, stenv, methods=m)
+        m[('State', 'check_intersection')] = (pre + 'check_intersection', 'b')
+        g.add(pre + 'score', '(self : Crystal α)', 'Option α', 'src/state/packed.rs', 'score', st_impl, stenv, methods=m)
+    g = state_group('FnsPacked.lean', 'packed', 'src/state/packed.rs', 'PackedState', packed_extra)
+    out[g.fname] = g.text('fnsPacked')
+
+    def pot_extra(g, m, inherent, st_impl, pre):
+        g.add(pre + 'score', '(self : Crystal α)', 'Option α', 'src/state/potential.rs', 'score', st_impl, stenv, methods=m)
+    g = state_group('FnsPotential.lean', 'potential', 'src/state/potential.rs', 'PotentialState', pot_extra)
+    out[g.fname] = g.text('fnsPotential')
 
     # ---------------- optimiser (C05, C07, C18, C20) and basis (C06, C19, C08)
     g = Group('FnsAccept.lean', ['Model.Optimiser'], 'src/optimisation.rs (MCOptimiser)')
@@ -1107,7 +1559,7 @@ def main():
         files = gen_fns(repo)
     except Exception as e:
         files = {}
-        for n in ('FnsDisc.lean', 'FnsLine.lean', 'FnsLJ.lean', 'FnsCell.lean', 'FnsWrap.lean', 'FnsAccept.lean', 'FnsBuild.lean', 'FnsBasis.lean'):
+        for n in ('FnsLattice.lean', 'FnsSite.lean', 'FnsPacked.lean', 'FnsPotential.lean', 'FnsLineShape.lean', 'FnsMolShape.lean', 'FnsLJShape.lean', 'FnsDisc.lean', 'FnsLine.lean', 'FnsLJ.lean', 'FnsCell.lean', 'FnsWrap.lean', 'FnsAccept.lean', 'FnsBuild.lean', 'FnsBasis.lean'):
             files[n] = '/- GENERATED: rs2lean failed: %s -/\nnamespace PV.Gen\nend PV.Gen\n' % str(e).replace('-/', '- /')
     for name, text in files.items():
         path = os.path.join(outdir, name)
